@@ -99,6 +99,12 @@ X_MergeSp(e) ==
        /\ ListIsSet(e.a.r2, SetOfSeq(e.r))
   ELSE Err(e) /\ e.r = <<>>
 
+\* the merge's exported building blocks, driven step by step; r = list of <<group, dense>>
+Exp_MergeSteps(e) == MergeSteps(SetOfSeq(e.a.ids), e.a.h, e.a.v, e.a.mh, e.a.mv)
+X_MergeSteps(e) == Ok(e) /\ ListIsSet(e.r, Exp_MergeSteps(e))
+\* ExtendedSpatialID.Higher on its own
+X_Higher(e) == Ok(e) /\ e.r = <<Higher(e.a.id, e.a.dh, e.a.dv)>>
+
 \* ---- C05 ------------------------------------------------------------------
 \* both argument orders are recorded: r = <<f(A,B), f(B,A)>>
 Exp_OverlapExt(e) == LET b == OverlapArr(SetOfSeq(e.a.A), SetOfSeq(e.a.B)) IN <<b, b>>
@@ -359,6 +365,7 @@ X_Point3(e) ==
    /\ (e.a.pts # <<>> => e.r.d2 = Dist2(e.a.pts[1], e.a.add) /\ e.r.close = Close3(e.a.pts[1], e.a.add, e.a.eps))
    /\ e.r.almost = (Abs(e.a.dir[1] - e.a.add[1]) <= e.a.eps)
 X_ObjHistory(e) == Ok(e) /\ e.r = ObjRun(ObjInit, e.a.ops)
+X_RegHistory(e) == Ok(e) /\ e.r = RegRun(e.a.init, e.a.ops)
 X_Angles(e) == Ok(e) /\ e.r.raddev <= 4 /\ e.r.backdev <= 4
 
 \* ---- C19 ------------------------------------------------------------------
@@ -395,6 +402,9 @@ Explains(e) ==
       [] e.op = "VoxelID"              -> X_VoxelID(e)
       [] e.op = "MergeExt"             -> X_MergeExt(e)
       [] e.op = "MergeSp"              -> X_MergeSp(e)
+      [] e.op = "MergeSteps"           -> X_MergeSteps(e)
+      [] e.op = "Higher"               -> X_Higher(e)
+      [] e.op = "RegHistory"           -> X_RegHistory(e)
       [] e.op \in {"OverlapExt", "OverlapExtArr"} -> X_OverlapExt(e)
       [] e.op \in {"OverlapSp", "OverlapSpArr"}   -> X_OverlapSp(e)
       [] e.op = "PointsExt"            -> X_PointsExt(e)
@@ -461,6 +471,9 @@ Expected(e) ==
     [] e.op = "VoxelID"              -> <<e.a.id[2], e.a.id[3], e.a.id[5]>>
     [] e.op = "MergeExt"             -> Exp_MergeExt(e)
     [] e.op = "MergeSp"              -> Exp_MergeSp(e)
+    [] e.op = "MergeSteps"           -> Exp_MergeSteps(e)
+    [] e.op = "Higher"               -> <<Higher(e.a.id, e.a.dh, e.a.dv)>>
+    [] e.op = "RegHistory"           -> RegRun(e.a.init, e.a.ops)
     [] e.op \in {"OverlapExt", "OverlapExtArr"} -> Exp_OverlapExt(e)
     [] e.op \in {"OverlapSp", "OverlapSpArr"}   -> Exp_OverlapSp(e)
     [] e.op = "PointsExt"            -> Exp_PointsExt(e)
